@@ -240,14 +240,23 @@ func (s *vcDB) op(kind string) bool {
 	return s.failAt > 0 && len(s.ops) == s.failAt
 }
 
-func (s *vcDB) ReadTransaction(_ context.Context, delegate graph.TransactionDelegate, _ ...graph.TransactionOption) error {
-	return delegate(&vcTx{db: s, g: &vcGraphData{}})
+// ReadTransaction honours the context the way a database driver does (third extension, item 8): once the context is
+// done no transaction is opened and the context's error is returned; a cursor that is still open stops delivering
+// (see vcCursor.Chan). With a live context nothing changes.
+func (s *vcDB) ReadTransaction(ctx context.Context, delegate graph.TransactionDelegate, _ ...graph.TransactionOption) error {
+	if ctx != nil {
+		if err := ctx.Err(); err != nil {
+			return err
+		}
+	}
+	return delegate(&vcTx{db: s, g: &vcGraphData{}, ctx: ctx})
 }
 
 type vcTx struct {
 	graph.Transaction
-	db *vcDB
-	g  *vcGraphData
+	db  *vcDB
+	g   *vcGraphData
+	ctx context.Context
 }
 
 func (s *vcTx) WithGraph(target graph.Graph) graph.Transaction {
@@ -255,7 +264,7 @@ func (s *vcTx) WithGraph(target graph.Graph) graph.Transaction {
 	if g == nil {
 		g = &vcGraphData{}
 	}
-	return &vcTx{db: s.db, g: g}
+	return &vcTx{db: s.db, g: g, ctx: s.ctx}
 }
 func (s *vcTx) Nodes() graph.NodeQuery                 { return &vcNodeQuery{tx: s} }
 func (s *vcTx) Relationships() graph.RelationshipQuery { return &vcRelQuery{tx: s} }
@@ -263,19 +272,29 @@ func (s *vcTx) Relationships() graph.RelationshipQuery { return &vcRelQuery{tx: 
 type vcCursor[T any] struct {
 	ch  chan T
 	err error
+	ctx context.Context
 }
 
-func vcNewCursor[T any](values []T, err error) *vcCursor[T] {
+func vcNewCursor[T any](ctx context.Context, values []T, err error) *vcCursor[T] {
 	ch := make(chan T, len(values))
 	for _, v := range values {
 		ch <- v
 	}
 	close(ch)
-	return &vcCursor[T]{ch: ch, err: err}
+	return &vcCursor[T]{ch: ch, err: err, ctx: ctx}
 }
 func (s *vcCursor[T]) Error() error { return s.err }
 func (s *vcCursor[T]) Close()       {}
-func (s *vcCursor[T]) Chan() chan T { return s.ch }
+
+// Chan: after the transaction's context is done the cursor delivers nothing more (a nil channel never becomes ready),
+// so a reader that selects on ctx.Done() and on this channel takes the ctx.Done() branch - deterministically, which
+// keeps the state a cancelled Dump leaves (and with it the case counts) the same from run to run.
+func (s *vcCursor[T]) Chan() chan T {
+	if s.ctx != nil && s.ctx.Err() != nil {
+		return nil
+	}
+	return s.ch
+}
 
 func vcAfterID(criteria graph.Criteria) (graph.ID, bool) {
 	comparison, ok := criteria.(*cypherModel.Comparison)
@@ -341,7 +360,7 @@ func (s *vcNodeQuery) Fetch(delegate func(graph.Cursor[*graph.Node]) error, _ ..
 			values = values[:1]
 		}
 	}
-	return delegate(vcNewCursor(values, cursorErr))
+	return delegate(vcNewCursor(s.tx.ctx, values, cursorErr))
 }
 
 type vcRelQuery struct {
@@ -391,7 +410,7 @@ func (s *vcRelQuery) Fetch(delegate func(graph.Cursor[*graph.Relationship]) erro
 			values = values[:1]
 		}
 	}
-	return delegate(vcNewCursor(values, cursorErr))
+	return delegate(vcNewCursor(s.tx.ctx, values, cursorErr))
 }
 
 // ---------------------------------------------------------------- crash hook, one Dump call
@@ -407,6 +426,11 @@ type vcRunState struct {
 	strict    bool
 	hooks     []string
 	snapErr   error
+	// cancellation instead of a crash (item 8): at the cancelAt-th hook invocation the hook calls cancel - the cancel
+	// function of the context Dump was given - and RETURNS, so Dump goes on until it notices (or does not notice)
+	cancelAt    int
+	cancel      context.CancelFunc
+	cancelPoint string
 }
 
 // The hook is a package global: within one process Dump calls are made strictly one after the other and the
@@ -425,6 +449,10 @@ func vcHook(point string) {
 			st.snapErr = vcCopyTree(st.dir, st.snap)
 		}
 		panic(vcCrashSentinel{point: point, index: st.crashAt})
+	}
+	if st.cancelAt > 0 && len(st.hooks) == st.cancelAt && st.cancel != nil {
+		st.cancelPoint = point
+		st.cancel()
 	}
 }
 
@@ -457,6 +485,7 @@ const (
 	vcFaultCrash     = 1
 	vcFaultReadError = 2 // read fails before delivering anything
 	vcFaultCursor    = 3 // Fetch delivers one record, then the cursor reports an error
+	vcFaultCancel    = 4 // the context handed to Dump is cancelled at the at-th hook invocation; Dump returns by itself
 )
 
 type vcFault struct {
@@ -473,6 +502,8 @@ func (f vcFault) String() string {
 		return fmt.Sprintf("readerror@read#%d(%s)", f.at, f.what)
 	case vcFaultCursor:
 		return fmt.Sprintf("cursorerror@read#%d(%s)", f.at, f.what)
+	case vcFaultCancel:
+		return fmt.Sprintf("cancel@hook#%d(%s)", f.at, f.what)
 	}
 	return "nofault"
 }
@@ -481,6 +512,7 @@ type vcOutcome struct {
 	err        error
 	crashed    bool
 	crashPoint string
+	cancelled  bool // the cancel position was reached (crashPoint = the hook point at which the context was cancelled)
 	harnessErr string
 	hung       bool
 	hooks      []string
@@ -500,6 +532,9 @@ func vcRunDump(dir string, data *vcData, driver string, targets []GraphTarget, o
 	}
 	ctx, cancel := context.WithTimeout(context.Background(), vcCallTimeout)
 	defer cancel()
+	if fault.kind == vcFaultCancel {
+		st.cancelAt, st.cancel = fault.at, cancel
+	}
 	done := make(chan vcOutcome, 1)
 	vcCurrent.Store(st)
 	go func() {
@@ -513,6 +548,9 @@ func vcRunDump(dir string, data *vcData, driver string, targets []GraphTarget, o
 				}
 			}
 			out.hooks, out.ops = st.hooks, db.ops
+			if st.cancelPoint != "" && !out.crashed {
+				out.cancelled, out.crashPoint = true, st.cancelPoint
+			}
 			done <- out
 		}()
 		out.res, out.err = Dump(ctx, db, driver, targets, opts)
@@ -545,15 +583,30 @@ type vcConfig struct {
 	batch int
 	codec CompressionCodec
 	scrub bool
+	rules string // scrub rules file content handed to Dump as DumpOptions.ScrubConfig ("" = none given: built-in defaults)
+	mode  string // "" = the full enumeration; "damage" = item 9 only (see runDamage)
 }
 
 const vcDriver = "verif-fake"
 
+// scrub rules files (item 10). Each differs from the built-in defaults in one setting. vcRulesPreserveName turns the
+// pseudonymised property "name" (every node of every harness graph has one) into a preserved one.
+const (
+	vcRulesPreserveName = "[classifier]\npreserve_keys = [\"objectid\", \"domainsid\", \"kind\", \"name\"]\n"
+	vcRulesMarker       = "[scrub]\nredaction_marker = \"[GONE]\"\n"
+	vcRulesShift        = "[scrub]\ntimestamp_shift_days = 30\n"
+)
+
+// options: DumpOptions.ScrubConfig is an io.Reader that one Dump call consumes, so every call of options() hands out
+// a fresh reader over the same content.
 func (c vcConfig) options() DumpOptions {
 	o := DefaultDumpOptions("")
 	o.Compression, o.ShardSize, o.BatchSize = c.codec, c.shard, c.batch
 	if c.scrub {
 		o.Scrub, o.Salt = ScrubFull, "verif-salt"
+		if c.rules != "" {
+			o.ScrubConfig = strings.NewReader(c.rules)
+		}
 	}
 	return o
 }
@@ -567,7 +620,11 @@ func vcTargets(d *vcData) []GraphTarget {
 }
 
 func (c vcConfig) String() string {
-	return fmt.Sprintf("db=%s shard=%d batch=%d codec=%s scrub=%v", c.data.name, c.shard, c.batch, c.codec, c.scrub)
+	text := fmt.Sprintf("db=%s shard=%d batch=%d codec=%s scrub=%v", c.data.name, c.shard, c.batch, c.codec, c.scrub)
+	if c.rules != "" {
+		text += fmt.Sprintf(" rules=%q", c.rules)
+	}
+	return text
 }
 
 // ---------------------------------------------------------------- independent readers / oracle helpers
@@ -1045,6 +1102,11 @@ type vcJob struct {
 	completed                                   int             // resumes that returned nil (and were checked against the reference)
 	strayRuns, strayRefused, toleratedCompleted int             // item 5
 	stuck                                       map[string]bool // kinds of first interruption after which a fault free resume is refused
+	// third extension (items 8-10)
+	cancelRuns, cancelCompleted, cancelResumes      int            // Dump calls with a cancellation; of these returned nil; fault free resumes after one
+	damageStates, damageRuns, damageRefused         int            // item 9
+	damageClean                                     int            // resumes over a damaged fragment that returned nil AND left a correct complete dump
+	identityRuns, recordedRuns                      map[string]int // identity field -> must-refuse resumes run with only its source option / only its recorded value changed
 	reasons                                     map[string]int
 	devHits                                     map[string]int
 	failCount                                   int
@@ -1180,6 +1242,9 @@ func vcFaults(hooks, ops []string, all bool) []vcFault {
 	for _, k := range pick(len(hooks)) {
 		out = append(out, vcFault{kind: vcFaultCrash, at: k, what: hooks[k-1]})
 	}
+	for _, k := range pick(len(hooks)) { // item 8: the same positions, the context is cancelled instead
+		out = append(out, vcFault{kind: vcFaultCancel, at: k, what: hooks[k-1]})
+	}
 	for _, n := range pick(len(ops)) {
 		out = append(out, vcFault{kind: vcFaultReadError, at: n, what: ops[n-1]})
 		if strings.HasPrefix(ops[n-1], "fetch") {
@@ -1195,10 +1260,32 @@ func vcPostCommit(point string) bool {
 
 // checkInterrupted: the Dump call with the given fault was indeed interrupted; returns false if the sequence
 // cannot be continued.
-func (j *vcJob) checkInterrupted(out vcOutcome, fault vcFault, desc string) bool {
+func (j *vcJob) checkInterrupted(dir string, out vcOutcome, fault vcFault, data *vcData, hadManifest bool, desc string) bool {
 	if out.harnessErr != "" {
 		j.fail("%s: %s", desc, out.harnessErr)
 		return false
+	}
+	if fault.kind == vcFaultCancel {
+		j.cancelRuns++
+		if out.crashed {
+			j.fail("%s: unexpected crash sentinel", desc)
+			return false
+		}
+		if !out.cancelled {
+			j.fail("%s: cancel position not reached (Dump returned err=%v after %d hook invocations)", desc, out.err, len(out.hooks))
+			return false
+		}
+		if out.err == nil {
+			// Dump did not notice the cancellation (or was past its last check) and reported success: then the dump is complete
+			j.cancelCompleted++
+			if !hadManifest {
+				for _, p := range vcCheckComplete(dir, j.cfg, data, j.reference(data), false) {
+					j.fail("%s: Dump returned nil after the cancellation but %s", desc, p)
+				}
+			}
+			return false
+		}
+		return true
 	}
 	if fault.kind == vcFaultCrash {
 		if !out.crashed {
@@ -1218,7 +1305,7 @@ func (j *vcJob) afterInterruption(dir string, out vcOutcome, fault vcFault, data
 	if !vcExists(dir, manifestFileName) {
 		return
 	}
-	if fault.kind == vcFaultCrash && vcPostCommit(out.crashPoint) {
+	if (fault.kind == vcFaultCrash || fault.kind == vcFaultCancel) && vcPostCommit(out.crashPoint) {
 		j.deviate("manifest-present-after-crash@"+out.crashPoint, "%s: manifest.json exists right after the interruption", desc)
 		for _, p := range vcCheckComplete(dir, j.cfg, data, j.reference(data), out.crashPoint == "manifest.renamed") {
 			j.fail("%s: manifest exists after the crash but the directory is not a complete dump: %s", desc, p)
@@ -1298,6 +1385,116 @@ type vcNegative struct {
 	graph  string // mutated graph (source changes)
 	class  string // deviation class if it is accepted although it must be refused ("" = hard failure)
 	files  map[string]string
+	// item 10
+	field    string                                 // Go name of the dumpCheckpointIdentity field whose source option (and nothing else) is changed
+	recorded bool                                   // the RECORDED value of the field is changed (checkpoint file edited), the options are the original ones
+	prepare  func(work string) (ok bool, err error) // edits the copied state before the resume; ok=false: not applicable to this state
+}
+
+// vcIdentityField describes one field of the run identity as the harness varies it.
+type vcIdentityField struct {
+	goName, jsonKey string
+	kind            reflect.Kind
+}
+
+// vcIdentityFields enumerates ALL fields of dumpCheckpointIdentity by reflection, so a field added to the identity
+// later is noticed (the parent process fails if a field has no variation, see the driver).
+func vcIdentityFields() []vcIdentityField {
+	var out []vcIdentityField
+	t := reflect.TypeOf(dumpCheckpointIdentity{})
+	for i := 0; i < t.NumField(); i++ {
+		f := t.Field(i)
+		key := strings.Split(f.Tag.Get("json"), ",")[0]
+		if key == "" {
+			key = f.Name
+		}
+		out = append(out, vcIdentityField{goName: f.Name, jsonKey: key, kind: f.Type.Kind()})
+	}
+	return out
+}
+
+// vcOptionSideFields: identity field -> the source option a resume changes for it (documentation and coverage table).
+// ScrubRulesVersion has no option behind it (it is a constant of the binary): it is varied on the recorded side only,
+// i.e. the checkpoint claims to come from a binary with other rules.
+var vcOptionSideFields = map[string]string{
+	"Driver":            "driver name argument",
+	"Graphs":            "target list argument",
+	"Compression":       "DumpOptions.Compression",
+	"CompressionLevel":  "DumpOptions.ZstdLevel",
+	"Scrub":             "DumpOptions.Scrub",
+	"ScrubConfigSHA256": "DumpOptions.ScrubConfig (rules file content)",
+	"ScrubSaltSHA256":   "DumpOptions.Salt",
+	"ShardSize":         "DumpOptions.ShardSize",
+	"BatchSize":         "DumpOptions.BatchSize",
+}
+
+// vcEditRecordedIdentity changes ONE value of the "identity" object of the checkpoint file in dir, generically (the file
+// is decoded as plain JSON): strings get a suffix, numbers are incremented, lists get one more element; a key the file
+// does not hold (omitted because empty) is added. ok=false: there is no checkpoint to edit.
+func vcEditRecordedIdentity(dir string, field vcIdentityField) (bool, error) {
+	p := filepath.Join(dir, ".retriever-checkpoint.json")
+	content, err := os.ReadFile(p)
+	if err != nil {
+		return false, nil
+	}
+	raw, err := vcDecodeRaw(content)
+	if err != nil {
+		return false, nil
+	}
+	top, ok := raw.(map[string]any)
+	if !ok {
+		return false, nil
+	}
+	identity, ok := top["identity"].(map[string]any)
+	if !ok {
+		return false, fmt.Errorf("checkpoint has no identity object")
+	}
+	switch v := identity[field.jsonKey].(type) {
+	case string:
+		identity[field.jsonKey] = v + "-x"
+	case json.Number:
+		n, err := v.Int64()
+		if err != nil {
+			return false, err
+		}
+		identity[field.jsonKey] = json.Number(strconv.FormatInt(n+1, 10))
+	case []any:
+		identity[field.jsonKey] = append(append([]any(nil), v...), "zz-recorded-extra")
+	case nil:
+		switch field.kind {
+		case reflect.String:
+			identity[field.jsonKey] = "verif-recorded-other"
+		case reflect.Slice:
+			identity[field.jsonKey] = []any{"zz-recorded-extra"}
+		default:
+			identity[field.jsonKey] = json.Number("1")
+		}
+	default:
+		return false, fmt.Errorf("identity.%s has an unexpected JSON type %T", field.jsonKey, v)
+	}
+	edited, err := json.MarshalIndent(top, "", "  ")
+	if err != nil {
+		return false, err
+	}
+	return true, os.WriteFile(p, append(edited, '\n'), 0o600)
+}
+
+type vcRulesVariant struct{ name, content string }
+
+// vcRulesVariants: the rules files a resume is tried with when the interrupted dump used base ("" = no file, defaults).
+func vcRulesVariants(base string) []vcRulesVariant {
+	var out []vcRulesVariant
+	for _, v := range []vcRulesVariant{
+		{"no-rules-file(defaults)", ""},
+		{"name-preserved-instead-of-pseudonymised", vcRulesPreserveName},
+		{"other-redaction-marker", vcRulesMarker},
+		{"other-timestamp-shift", vcRulesShift},
+	} {
+		if v.content != base {
+			out = append(out, v)
+		}
+	}
+	return out
 }
 
 func (j *vcJob) negatives() []vcNegative {
@@ -1307,19 +1504,37 @@ func (j *vcJob) negatives() []vcNegative {
 		other = CompressionNone
 	}
 	out := []vcNegative{
-		{name: "ShardSize+1", opts: func(o DumpOptions) DumpOptions { o.ShardSize++; return o }},
-		{name: "BatchSize+1", opts: func(o DumpOptions) DumpOptions { o.BatchSize++; return o }},
-		{name: "Compression=" + string(other), opts: func(o DumpOptions) DumpOptions { o.Compression = other; return o }},
-		{name: "ZstdLevel+1", opts: func(o DumpOptions) DumpOptions { o.ZstdLevel++; return o }},
-		{name: "driver-name-differs", driver: vcDriver + "2"},
-		{name: "extra-target", target: append(vcTargets(data), GraphTarget{Name: "zz-extra"})},
+		{name: "ShardSize+1", field: "ShardSize", opts: func(o DumpOptions) DumpOptions { o.ShardSize++; return o }},
+		{name: "BatchSize+1", field: "BatchSize", opts: func(o DumpOptions) DumpOptions { o.BatchSize++; return o }},
+		{name: "Compression=" + string(other), field: "Compression", opts: func(o DumpOptions) DumpOptions { o.Compression = other; return o }},
+		{name: "ZstdLevel+1", field: "CompressionLevel", opts: func(o DumpOptions) DumpOptions { o.ZstdLevel++; return o }},
+		{name: "driver-name-differs", field: "Driver", driver: vcDriver + "2"},
+		{name: "extra-target", field: "Graphs", target: append(vcTargets(data), GraphTarget{Name: "zz-extra"})},
 	}
 	if cfg.scrub {
 		out = append(out,
-			vcNegative{name: "Scrub=none", opts: func(o DumpOptions) DumpOptions { o.Scrub, o.Salt = ScrubNone, ""; return o }},
-			vcNegative{name: "Salt-differs", opts: func(o DumpOptions) DumpOptions { o.Salt = "another-salt"; return o }})
+			vcNegative{name: "Scrub=none", field: "Scrub", opts: func(o DumpOptions) DumpOptions { o.Scrub, o.Salt, o.ScrubConfig = ScrubNone, "", nil; return o }},
+			vcNegative{name: "Salt-differs", field: "ScrubSaltSHA256", opts: func(o DumpOptions) DumpOptions { o.Salt = "another-salt"; return o }})
+		// item 10: same mode, same salt, another rules file (a fresh reader for every call)
+		for _, alt := range vcRulesVariants(cfg.rules) {
+			content := alt.content
+			out = append(out, vcNegative{name: "ScrubConfig:" + alt.name, field: "ScrubConfigSHA256", class: "options-differ-accepted:scrub-rules-content", opts: func(o DumpOptions) DumpOptions {
+				o.ScrubConfig = nil
+				if content != "" {
+					o.ScrubConfig = strings.NewReader(content)
+				}
+				return o
+			}})
+		}
 	} else {
-		out = append(out, vcNegative{name: "Scrub=full", opts: func(o DumpOptions) DumpOptions { o.Scrub, o.Salt = ScrubFull, "verif-salt"; return o }})
+		out = append(out, vcNegative{name: "Scrub=full", field: "Scrub", opts: func(o DumpOptions) DumpOptions { o.Scrub, o.Salt = ScrubFull, "verif-salt"; return o }})
+	}
+	// item 10, recorded side: every field of the identity, one at a time, differs in the checkpoint from what the
+	// (unchanged) options of the resume give
+	for _, f := range vcIdentityFields() {
+		field := f
+		out = append(out, vcNegative{name: "recorded-identity:" + field.jsonKey, field: field.goName, recorded: true, class: "options-differ-accepted:recorded-" + field.jsonKey,
+			prepare: func(work string) (bool, error) { return vcEditRecordedIdentity(work, field) }})
 	}
 	if len(data.order) > 1 {
 		reversed := vcTargets(data)
@@ -1377,6 +1592,23 @@ func (j *vcJob) runNegatives(state, work string, f1 vcFault, negs []vcNegative) 
 			_ = os.MkdirAll(filepath.Dir(p), 0o755)
 			if err := os.WriteFile(p, []byte(content), 0o600); err != nil {
 				j.fail("%s: harness write failed: %v", desc, err)
+			}
+		}
+		if neg.prepare != nil {
+			ok, err := neg.prepare(work)
+			if err != nil {
+				j.fail("%s: harness could not prepare the state: %v", desc, err)
+				continue
+			}
+			if !ok {
+				continue
+			}
+		}
+		if neg.field != "" {
+			if neg.recorded {
+				j.recordedRuns[neg.field]++
+			} else {
+				j.identityRuns[neg.field]++
 			}
 		}
 		pre, preManifest := vcReadCheckpoint(work), vcExists(work, manifestFileName)
@@ -1636,6 +1868,7 @@ func vcEntryList(dir string) []string {
 
 func (j *vcJob) run() {
 	j.reasons, j.devHits, j.refs, j.stuck = map[string]int{}, map[string]int{}, map[string]*vcReference{}, map[string]bool{}
+	j.identityRuns, j.recordedRuns = map[string]int{}, map[string]int{}
 	defer os.RemoveAll(j.root)
 	data := j.cfg.data
 	ref := j.reference(data)
@@ -1643,7 +1876,14 @@ func (j *vcJob) run() {
 		return
 	}
 	state, work := filepath.Join(j.root, "state"), filepath.Join(j.root, "work")
+	if j.cfg.mode == "damage" {
+		j.runDamage(ref, state, work)
+		return
+	}
 	negs := j.negatives()
+	if j.part == 0 && !j.strict {
+		j.checkRulesVariantsBite(ref, work)
+	}
 	var firsts []vcFault
 	for i, f := range vcFaults(ref.hooks, ref.ops, true) {
 		if i%j.parts == j.part { // the split into parts does not depend on the seed
@@ -1664,12 +1904,16 @@ func (j *vcJob) run() {
 		_ = os.RemoveAll(state)
 		desc1 := fmt.Sprintf("dump with %s", f1)
 		o1 := j.dump(state, data, j.cfg.options(), false, f1)
-		if !j.checkInterrupted(o1, f1, desc1) {
+		if !j.checkInterrupted(state, o1, f1, data, false, desc1) {
 			continue
 		}
 		j.afterInterruption(state, o1, f1, data, desc1)
 		preManifest := vcExists(state, manifestFileName)
 		pre := vcReadCheckpoint(state)
+		// item 8 (checked after every kind of interruption): what the checkpoint on disk lists is on disk, unchanged
+		for _, p := range vcIntact(state, pre) {
+			j.fail("%s: right after the interrupted run returned, the checkpoint on disk lists a fragment but %s", desc1, p)
+		}
 
 		if !dup {
 			j.runNegatives(state, work, f1, negs)
@@ -1683,9 +1927,20 @@ func (j *vcJob) run() {
 		}
 		o2 := j.dump(work, data, j.cfg.options(), true, vcFault{})
 		j.checkResume(work, o2, pre, preManifest, data, desc1+", then resume")
+		if f1.kind == vcFaultCancel {
+			j.cancelResumes++
+			// item 8: nothing but the cancellation happened, so the resume must COMPLETE (checkResume has compared the
+			// result with the uninterrupted reference); a refusal is a violation here
+			if o2.err != nil && o2.harnessErr == "" && !o2.crashed && !preManifest {
+				j.deviate("resume-refused-after-cancellation@"+f1.what, "%s, then resume: the resume must complete after a mere cancellation, it returned %q; files=%v", desc1, vcNormErr(work, o2.err), vcListFiles(work))
+			}
+		}
 		if o2.err != nil && !preManifest {
 			kind := "crash@"
-			if f1.kind != vcFaultCrash {
+			switch {
+			case f1.kind == vcFaultCancel:
+				kind = "cancel@"
+			case f1.kind != vcFaultCrash:
 				kind = "readerror@"
 			}
 			j.stuck[kind+f1.what] = true
@@ -1706,7 +1961,7 @@ func (j *vcJob) run() {
 				continue
 			}
 			o2f := j.dump(work, data, j.cfg.options(), true, f2)
-			if !j.checkInterrupted(o2f, f2, desc2) {
+			if !j.checkInterrupted(work, o2f, f2, data, preManifest, desc2) {
 				continue
 			}
 			if !preManifest {
@@ -1715,12 +1970,202 @@ func (j *vcJob) run() {
 			for _, p := range vcIntact(work, pre) {
 				j.fail("%s: %s", desc2, p)
 			}
-			if o2f.err != nil {
+			if o2f.err != nil && f2.kind != vcFaultCancel {
 				j.injected++ // the interrupted resume itself returned the injected read error: not a refusal
 			}
 			pre2, preManifest2 := vcReadCheckpoint(work), vcExists(work, manifestFileName)
+			for _, p := range vcIntact(work, pre2) {
+				j.fail("%s: right after the interrupted resume returned, the checkpoint on disk lists a fragment but %s", desc2, p)
+			}
 			o3 := j.dump(work, data, j.cfg.options(), true, vcFault{})
 			j.checkResume(work, o3, pre2, preManifest2, data, desc2+", then resume")
+			if f2.kind == vcFaultCancel {
+				j.cancelResumes++
+				// the fault free resume from the same state completed (o2), the cancelled resume changed nothing but
+				// committed more: the next resume must complete as well
+				if o2.err == nil && o3.err != nil && o3.harnessErr == "" && !o3.crashed && !preManifest2 {
+					j.deviate("resume-refused-after-cancellation@"+f2.what, "%s, then resume: the resume must complete after a mere cancellation of the previous resume, it returned %q; files=%v", desc2, vcNormErr(work, o3.err), vcListFiles(work))
+				}
+			}
+		}
+	}
+}
+
+// checkRulesVariantsBite (harness sanity, item 10): an uninterrupted dump under the rules variant that preserves "name"
+// (under the defaults when the configuration itself uses that variant) holds other records than the reference, i.e. the
+// rules files the resumes are tried with are not just different bytes - they change what is written.
+func (j *vcJob) checkRulesVariantsBite(ref *vcReference, work string) {
+	if !j.cfg.scrub {
+		return
+	}
+	alt := j.cfg
+	alt.rules = vcRulesPreserveName
+	if j.cfg.rules == vcRulesPreserveName {
+		alt.rules = ""
+	}
+	hasName := false
+	for _, g := range j.cfg.data.graphs {
+		for _, n := range g.nodes {
+			if _, ok := n.props["name"]; ok {
+				hasName = true
+			}
+		}
+	}
+	if !hasName {
+		return
+	}
+	_ = os.RemoveAll(work)
+	out := j.dump(work, j.cfg.data, alt.options(), false, vcFault{})
+	if out.harnessErr != "" || out.crashed || out.err != nil {
+		j.fail("harness: uninterrupted dump under the other rules file failed: %s %s", out.harnessErr, vcNormErr(work, out.err))
+		return
+	}
+	m, err := readManifest(work)
+	if err != nil {
+		j.fail("harness: dump under the other rules file: %s", vcNormErr(work, err))
+		return
+	}
+	got, _ := vcDecode(work, m, true)
+	if reflect.DeepEqual(got.nodes, ref.full.nodes) {
+		j.fail("harness: the rules file %q does not change the node records of the dump, the scrub-rules variation is void", alt.rules)
+	}
+	_ = os.RemoveAll(work)
+}
+
+// ---------------------------------------------------------------- item 9: damage to committed fragments, length kept
+
+type vcDamage struct {
+	name  string
+	apply func(content []byte) []byte // returns a damaged copy of the same length
+}
+
+func vcDamages() []vcDamage {
+	flip := func(pos func(n int) int) func([]byte) []byte {
+		return func(content []byte) []byte {
+			out := append([]byte(nil), content...)
+			if len(out) > 0 {
+				out[pos(len(out))] ^= 0x01
+			}
+			return out
+		}
+	}
+	return []vcDamage{
+		{"first-byte-xor-01", flip(func(int) int { return 0 })},
+		{"middle-byte-xor-01", flip(func(n int) int { return n / 2 })},
+		{"last-byte-xor-01", flip(func(n int) int { return n - 1 })},
+		{"zero-filled", func(content []byte) []byte { return make([]byte, len(content)) }},
+	}
+}
+
+// runDamage: crash (strict model) at EVERY hook invocation k of the uninterrupted run; the first k that reaches each
+// distinct committed state - (graphs completed, graph in progress, its phase, list of committed fragments) as the
+// harness reads it from the checkpoint - is used. That covers the representative positions (after the first committed
+// node fragment, after the node phase, inside the edge phase, after the first graph of a two-graph dump) and every
+// other number of committed fragments. From each such state, for every committed fragment and every damage, one resume
+// with the original options and the unchanged source.
+func (j *vcJob) runDamage(ref *vcReference, state, work string) {
+	data := j.cfg.data
+	seen := map[string]bool{}
+	for k := 1; k <= len(ref.hooks); k++ {
+		if j.aborted {
+			return
+		}
+		f1 := vcFault{kind: vcFaultCrash, at: k, what: ref.hooks[k-1]}
+		desc1 := fmt.Sprintf("dump with %s", f1)
+		_ = os.RemoveAll(state)
+		o1 := j.dump(state, data, j.cfg.options(), false, f1)
+		if !j.checkInterrupted(state, o1, f1, data, false, desc1) {
+			continue
+		}
+		pre := vcReadCheckpoint(state)
+		if !pre.present || len(pre.files) == 0 || vcExists(state, manifestFileName) {
+			continue
+		}
+		current := map[string]bool{}
+		signature := fmt.Sprintf("current=%v:%s:%s", pre.hasCurrent, pre.curName, pre.curPhase)
+		for _, f := range pre.files {
+			signature += "|" + f.Path
+		}
+		if seen[signature] {
+			continue
+		}
+		seen[signature] = true
+		j.damageStates++
+		j.sequences++
+		if pre.hasCurrent {
+			prefix := "graphs/" + graphDirectoryName(pre.curName) + "/"
+			for _, f := range pre.files {
+				if strings.HasPrefix(f.Path, prefix) {
+					current[f.Path] = true
+				}
+			}
+		}
+		for _, victim := range pre.files {
+			original, err := os.ReadFile(filepath.Join(state, filepath.FromSlash(victim.Path)))
+			if err != nil {
+				j.fail("%s: committed fragment %s unreadable: %s", desc1, victim.Path, vcNormErr(state, err))
+				continue
+			}
+			where := "fragment-of-completed-graph"
+			if current[victim.Path] {
+				where = "fragment-of-graph-in-progress"
+			}
+			tried := map[string]bool{}
+			for _, damage := range vcDamages() {
+				if j.aborted {
+					return
+				}
+				damaged := damage.apply(original)
+				if len(damaged) != len(original) || string(damaged) == string(original) || tried[string(damaged)] {
+					continue
+				}
+				tried[string(damaged)] = true
+				desc := fmt.Sprintf("%s (state: %d committed fragments, phase %q of %q), then %s of %s (%d bytes, %s), then resume", f1, len(pre.files), pre.curPhase, pre.curName, damage.name, victim.Path, len(original), where)
+				if err := vcCopyTree(state, work); err != nil {
+					j.fail("%s: harness copy failed: %v", desc, err)
+					continue
+				}
+				if err := os.WriteFile(filepath.Join(work, filepath.FromSlash(victim.Path)), damaged, 0o600); err != nil {
+					j.fail("%s: harness write failed: %v", desc, err)
+					continue
+				}
+				j.damageRuns++
+				out := j.dump(work, data, j.cfg.options(), true, vcFault{})
+				if out.harnessErr != "" || out.crashed {
+					j.fail("%s: %s crashed=%v", desc, out.harnessErr, out.crashed)
+					continue
+				}
+				if out.err == nil {
+					// allowed only if what was published is right: every manifest checksum matches the file on disk
+					// and the data equals the reference (i.e. the code repaired the fragment)
+					problems := vcCheckComplete(work, j.cfg, data, j.reference(data), false)
+					if len(problems) == 0 {
+						j.damageClean++
+						j.completed++
+						continue
+					}
+					if len(problems) > 3 {
+						problems = problems[:3]
+					}
+					j.deviate("damaged-fragment-accepted:"+where, "%s: resume returned nil over a damaged committed fragment and published a dump that is not right: %s", desc, strings.Join(problems, "; "))
+					continue
+				}
+				j.damageRefused++
+				j.refuse(work, out.err)
+				if vcExists(work, manifestFileName) {
+					j.fail("%s: refused (%s) but a manifest was written", desc, vcNormErr(work, out.err))
+				}
+				others := pre
+				others.files = nil
+				for _, f := range pre.files {
+					if f.Path != victim.Path {
+						others.files = append(others.files, f)
+					}
+				}
+				for _, p := range vcIntact(work, others) {
+					j.fail("%s: refused (%s) and %s", desc, vcNormErr(work, out.err), p)
+				}
+			}
 		}
 	}
 }
@@ -1732,12 +2177,18 @@ type vcPart struct {
 	Failures                                                  []string
 	Reasons, DevHits                                          map[string]int
 	Stuck                                                     []string
+	CancelRuns, CancelCompleted, CancelResumes                int
+	DamageStates, DamageRuns, DamageRefused, DamageClean      int
+	IdentityRuns, RecordedRuns                                map[string]int
 }
 
 func (j *vcJob) part_() vcPart {
 	p := vcPart{Cases: j.cases, Sequences: j.sequences, Refused: j.refused, Completed: j.completed, FailCount: j.failCount, Injected: j.injected,
 		Failures: j.failures, Reasons: j.reasons, DevHits: j.devHits,
-		StrayRuns: j.strayRuns, StrayRefused: j.strayRefused, ToleratedCompleted: j.toleratedCompleted}
+		StrayRuns: j.strayRuns, StrayRefused: j.strayRefused, ToleratedCompleted: j.toleratedCompleted,
+		CancelRuns: j.cancelRuns, CancelCompleted: j.cancelCompleted, CancelResumes: j.cancelResumes,
+		DamageStates: j.damageStates, DamageRuns: j.damageRuns, DamageRefused: j.damageRefused, DamageClean: j.damageClean,
+		IdentityRuns: j.identityRuns, RecordedRuns: j.recordedRuns}
 	for k := range j.stuck {
 		p.Stuck = append(p.Stuck, k)
 	}
@@ -1810,7 +2261,11 @@ func TestVerifBoundedCrashResume(t *testing.T) {
 		{data: twoSmall, shard: 1, batch: 1, codec: CompressionNone},
 		{data: twoSmall, shard: 2, batch: 2, codec: CompressionNone},
 		{data: twoRich, shard: 1, batch: 2, codec: CompressionNone, scrub: true},
+		// third extension, item 10: the interrupted dump itself uses a rules file (resumes with the same content must
+		// complete, resumes with another file or with none must be refused)
+		{data: g3x2, shard: 1, batch: 2, codec: CompressionNone, scrub: true, rules: vcRulesPreserveName},
 	}
+	const thirdText = "; THIRD EXTENSION: + 1 configuration whose dump uses a scrub rules file (1 graph 3 nodes 2 edges, shard 1, batch 2); first and second interruptions additionally: the context given to Dump is CANCELLED at the k-th hook invocation (first: every k, second: as for crashes) over a fake database that honours the context - the resume afterwards must complete; after every interruption the fragments the checkpoint on disk lists must be on disk unchanged; must-refuse resumes additionally: another scrub rules file content with the same mode and salt (3 files) and, for EVERY field of dumpCheckpointIdentity (enumerated by reflection), the recorded value changed in the checkpoint; per configuration one DAMAGE job: from the first strict crash reaching each distinct committed state, every committed fragment (also of graphs already complete) x {first, middle, last byte xor 0x01, zero-filled at the same length}, then a resume that must refuse or publish a correct dump"
 	const extensionText = "; EXTENSION: + scrub=full over 1 graph 3 nodes 3 edges with node and edge properties of all four scrub actions (shard 1 x batch {1,2}), + 2 graphs (3 nodes 2 edges; 2 nodes 1 edge) x (shard,batch) {(1,1),(2,2)}, + scrub=full over 2 such scrubbed graphs (shard 1, batch 2)%s; from every interrupted state additionally ~45-60 resumes with one unaccounted entry of an unusual name each (dot file, swap file, case / extension variant of a fragment name, zero-length file, empty directory, directory or symbolic link named like a fragment, in root, graphs/, first and last graph directory; directory / link at the next fragment path; foreign temp names) that must be refused, and the three documented temp names holding garbage / as link / as directory; every completed resume: manifest.json compared field by field with the uninterrupted one, directories and links listed too"
 
 	var configs []vcConfig
@@ -1826,7 +2281,7 @@ func TestVerifBoundedCrashResume(t *testing.T) {
 		}
 		configs = append(configs, vcConfig{data: g3x2, shard: 2, batch: 2, codec: CompressionNone, scrub: true})
 		configs = append(configs, extension...)
-		boundText += fmt.Sprintf(extensionText, "")
+		boundText += fmt.Sprintf(extensionText, "") + thirdText
 	} else {
 		boundText = "databases {2 graphs (4 nodes 3 edges; 3 nodes 2 edges); 1 graph 3 nodes 2 edges; empty graph; single node} x shard {1,2,3} x batch {1,2} x codec {none,gzip} (+ scrub=full configs) x crash models {unwind, strict}; first interruption: every hook invocation and every database read (error before / after one record); second interruption during resume at EVERY hook invocation / read; 20-odd must-refuse resumes from every interrupted state"
 		for _, d := range []*vcData{two, g3x2, empty, one} {
@@ -1848,7 +2303,7 @@ func TestVerifBoundedCrashResume(t *testing.T) {
 			vcConfig{data: rich, shard: 2, batch: 1, codec: CompressionNone, scrub: true},
 			vcConfig{data: twoRich, shard: 1, batch: 1, codec: CompressionGzip, scrub: true},
 			vcConfig{data: twoRich, shard: 2, batch: 3, codec: CompressionNone, scrub: true})
-		boundText += fmt.Sprintf(extensionText, ", + the scrubbed graph with gzip (shard 1, batch 1) and shard 2, + the two scrubbed graphs with gzip (shard 1, batch 1) and (shard 2, batch 3)")
+		boundText += fmt.Sprintf(extensionText, ", + the scrubbed graph with gzip (shard 1, batch 1) and shard 2, + the two scrubbed graphs with gzip (shard 1, batch 1) and (shard 2, batch 3)") + thirdText
 	}
 
 	// jobs: configuration x crash model x slice of the first interruptions (big databases are split so that
@@ -1868,6 +2323,13 @@ func TestVerifBoundedCrashResume(t *testing.T) {
 				jobs = append(jobs, &vcJob{cfg: cfg, strict: strict, full: bound == "2", seed: seed, part: part, parts: parts})
 			}
 		}
+	}
+	// item 9: one damage job per configuration (strict crash model: the state is the one at the crash point)
+	damageJobs := 0
+	for _, cfg := range configs {
+		cfg.mode = "damage"
+		jobs = append(jobs, &vcJob{cfg: cfg, strict: true, full: bound == "2", seed: seed, part: 0, parts: 1})
+		damageJobs++
 	}
 
 	previousLogger := slog.Default()
@@ -1957,7 +2419,18 @@ func TestVerifBoundedCrashResume(t *testing.T) {
 	strayRuns, strayRefused, toleratedCompleted := 0, 0, 0
 	reasons, devHits, stuckSet := map[string]int{}, map[string]int{}, map[string]bool{}
 	failures := []string{}
+	var third vcPart
+	third.IdentityRuns, third.RecordedRuns = map[string]int{}, map[string]int{}
 	for _, part := range parts {
+		third.CancelRuns, third.CancelCompleted, third.CancelResumes = third.CancelRuns+part.CancelRuns, third.CancelCompleted+part.CancelCompleted, third.CancelResumes+part.CancelResumes
+		third.DamageStates, third.DamageRuns = third.DamageStates+part.DamageStates, third.DamageRuns+part.DamageRuns
+		third.DamageRefused, third.DamageClean = third.DamageRefused+part.DamageRefused, third.DamageClean+part.DamageClean
+		for k, v := range part.IdentityRuns {
+			third.IdentityRuns[k] += v
+		}
+		for k, v := range part.RecordedRuns {
+			third.RecordedRuns[k] += v
+		}
 		cases, sequences, refused, failCount = cases+part.Cases, sequences+part.Sequences, refused+part.Refused, failCount+part.FailCount
 		completed, injected = completed+part.Completed, injected+part.Injected
 		strayRuns, strayRefused, toleratedCompleted = strayRuns+part.StrayRuns, strayRefused+part.StrayRefused, toleratedCompleted+part.ToleratedCompleted
@@ -1971,6 +2444,23 @@ func TestVerifBoundedCrashResume(t *testing.T) {
 			devHits[k] += v
 		}
 		failures = append(failures, part.Failures...)
+	}
+	// item 10: EVERY field of the run identity was varied - on the option side where an option feeds it, and on the
+	// recorded side in any case (a field added to dumpCheckpointIdentity later has no option-side entry here: failure)
+	for _, field := range vcIdentityFields() {
+		if _, hasOption := vcOptionSideFields[field.goName]; hasOption {
+			if third.IdentityRuns[field.goName] == 0 {
+				failures = append(failures, fmt.Sprintf("[harness] identity field %s (%s): no must-refuse resume with only that option changed was run", field.goName, vcOptionSideFields[field.goName]))
+				failCount++
+			}
+		} else if field.goName != "ScrubRulesVersion" {
+			failures = append(failures, fmt.Sprintf("[harness] dumpCheckpointIdentity has a field %s (json %q) the harness has no option-side variation for: add one", field.goName, field.jsonKey))
+			failCount++
+		}
+		if third.RecordedRuns[field.goName] == 0 {
+			failures = append(failures, fmt.Sprintf("[harness] identity field %s: no must-refuse resume with only its recorded value changed was run", field.goName))
+			failCount++
+		}
 	}
 	sort.Strings(failures)
 	if len(failures) > 5 {
@@ -2004,6 +2494,9 @@ func TestVerifBoundedCrashResume(t *testing.T) {
 		"failure_count": failCount, "configs": len(configs), "jobs": len(jobs), "jobs_run_in_process": fallbacks, "sequences": sequences,
 		"refused": refused, "refusal_reasons": refusalReasons, "distinct_refusal_reasons": len(reasons),
 		"known_deviation_hits": devHits, "resumes_completed": completed, "resumes_failed_by_injected_read_error": injected, "first_interruptions_after_which_resume_is_refused": stuck,
+		"damage_jobs": damageJobs, "dumps_cancelled_at_a_hook": third.CancelRuns, "dumps_cancelled_that_still_returned_nil": third.CancelCompleted, "resumes_after_a_cancellation": third.CancelResumes,
+		"damage_states": third.DamageStates, "resumes_over_damaged_fragment": third.DamageRuns, "resumes_over_damaged_fragment_refused": third.DamageRefused, "resumes_over_damaged_fragment_completed_correctly": third.DamageClean,
+		"identity_fields_option_changed": third.IdentityRuns, "identity_fields_recorded_value_changed": third.RecordedRuns,
 		"resumes_with_unusual_extra_entry": strayRuns, "resumes_with_unusual_extra_entry_refused": strayRefused, "resumes_with_tolerated_temp_name_completed": toleratedCompleted,
 	}
 	out, _ := json.Marshal(res)
